@@ -649,6 +649,7 @@ def crash_inspector(ctx, plan: Plan, root_box: list, store: dict, want, sel):
         full = os.path.join(root, plan.dest)
         got = read_file(full)
         ctx.label('pt:crash')
+        ctx.count()      # one enumerated (scenario, point, kind) execution
         if got != allowed[0] and got != allowed[1]:
             ctx.fail('crash_old_or_new',
                      f'kill at boundary {idx} ({b["at"]} {b["op"]} {b["path"]}, phase {ph}): destination {plan.dest} '
@@ -830,6 +831,7 @@ def execute_crash(desc, ctx) -> None:
             root = cd.fresh()
             got = fork_kill(plan, root, i)
             ctx.label('pt:fork_kill')
+            ctx.count()      # one enumerated (scenario, point, kind) execution
             if got != store[i]:
                 diff = sorted(k for k in set(got) | set(store[i]) if got.get(k) != store[i].get(k))
                 raise HarnessError(
@@ -863,6 +865,7 @@ def execute_fault(desc, ctx) -> None:
                     raise HarnessError(f'fault at boundary {i} never fired')
                 same_prefix(trace, rec.trace, i, f'fault {err}@{i}')
                 ctx.label(f'pt:fault:{b["op"]}:{err}')
+                ctx.count()      # one enumerated (scenario, point, kind) execution
                 if i in win:
                     ctx.label('pt:fault_window')
                 what = (f'{err} injected at boundary {i} ({b["op"]} {b["path"]}'
@@ -897,6 +900,7 @@ def execute_body(desc, ctx) -> None:
                 raise HarnessError(f'body exception at boundary {i} did not propagate')
             same_prefix(trace, rec.trace, i, f'body@{i}')
             ctx.label('pt:body:' + b['at'])
+            ctx.count()      # one enumerated (scenario, point, kind) execution
             check_listing(ctx, plan, root, out['failed_phase'], 'body',
                           f'body raised at boundary {i} ({b["at"]} write of {b["n"]} to {b["path"]}, phase {b["phase"]})',
                           at=b['at'], boundary=i)
@@ -913,6 +917,7 @@ def execute_body(desc, ctx) -> None:
                     if out['exc'] is None:
                         raise HarnessError(f'harness body exception ({ph},{j}) did not propagate')
                     ctx.label('pt:body:call')
+                    ctx.count()      # one enumerated (scenario, point, kind) execution
                     check_listing(ctx, plan, root, out['failed_phase'], 'body',
                                   f'body raised before call {j} of {len(calls)} in phase {ph}', at='call', boundary=j)
                     cd.drop(root)
